@@ -12,7 +12,7 @@ PROP = 'C13'
 C_TOL = 100.0
 RULE = ('cases = q = x/y, scalar/y and elementwise_divide(x,y,eps,...) for TT tensors of order 2..5, mode sizes 1..10 (dense size <= 2e4), ranks 1..4, divisors y = 1 + z*z with '
         'every entry certified in [1,2] (a few larger cases: [1,7.25]) on the dense array, optional preconditioner c, optional starting tensor, eps log-uniform in [1e-10,1e-3] for elementwise_divide, '
-        'k internal seeds per structure; plus x/scalar (power-of-two scalars, int-valued cores: bit-exact). Oracle: shape; ||D(q)*D(y) - D(x)|| <= 100*tol*||D(x)|| with tol = 1e-12 '
+        'a few full-rank 10x10x10x10 quotients (divisor in [1,10], eps 1e-12/1e-11, optional nswp=40), k internal seeds per structure; plus x/scalar (power-of-two scalars, int-valued cores: bit-exact). Oracle: shape; ||D(q)*D(y) - D(x)|| <= 100*tol*||D(x)|| with tol = 1e-12 '
         '(operators, fixed setting) or eps (elementwise_divide). distinct = (form, structure, eps decade, options, seed index); non-trivial = non-zero numerator.')
 ASSUMPTIONS = ['"within the solver tolerance" is fixed a priori as 100*tol (the AMEn residual is controlled per local problem; the constant absorbs sqrt(d) and the damping factor)',
                'divisor entries are certified in [1,2] by the harness; nothing is claimed for divisors with entries near zero']
